@@ -9,17 +9,19 @@ LookupProblems(ev, post) ==
     IF "lookups" \notin DOMAIN ev THEN {} ELSE
     (IF \A id \in DOMAIN ev.lookups : ev.lookups[id].count = CountOf(post, id) THEN {} ELSE {"itemCount disagrees with the model"})
     \cup (IF \A id \in DOMAIN ev.lookups :
-               ev.lookups[id].item = (IF CountOf(post, id) = 1 THEN CHOOSE i \in Items : post[i] = id ELSE NoneS)
+               ev.lookups[id].item = (IF CountOf(post, id) = 1 THEN CHOOSE i \in Listed : post[i] = id ELSE NoneS)
           THEN {} ELSE {"item(id) does not return exactly the object carrying the id"})
-    \cup (IF Range(ev.annIds) = {post[i] : i \in Items} \ {NoneS} THEN {} ELSE {"ids() disagrees with the model"})
-    \cup (IF Range(ev.annDups) = {d \in {post[i] : i \in Items} \ {NoneS} : CountOf(post, d) > 1} THEN {} ELSE {"duplicateIds() disagrees with the model"})
+    \cup (IF Range(ev.annIds) = {post[i] : i \in Listed} \ {NoneS} THEN {} ELSE {"ids() disagrees with the model"})
+    \cup (IF Range(ev.annDups) = {d \in {post[i] : i \in Listed} \ {NoneS} : CountOf(post, d) > 1} THEN {} ELSE {"duplicateIds() disagrees with the model"})
     \cup (IF LogCoherent(ev.log) THEN {} ELSE {"incoherent issue list"})
 
 \* ids in the printed text: those of the model keep their multiplicity, every automatic one occurs once and is new
 CountIn(seq, x) == Cardinality({k \in DOMAIN seq : seq[k] = x})
 CountAll(ids, x) == Cardinality({i \in DOMAIN ids : ids[i] = x})
-PrintFresh(printed, pre) == \A x \in Range(printed) : CountIn(printed, x) = (IF x \in Present(pre) THEN CountAll(pre, x) ELSE 1)
-PrintFreshButMath(printed, pre) ==
+\* (an id carried by an object for which no element is written - Loose - does not appear in the document)
+Written(ids) == [i \in DOMAIN ids \ Loose |-> ids[i]]
+PrintFresh(printed, pre0) == LET pre == Written(pre0) IN \A x \in Range(printed) : CountIn(printed, x) = (IF x \in Present(pre) THEN CountAll(pre, x) ELSE 1)
+PrintFreshButMath(printed, pre0) == LET pre == Written(pre0) IN
     \A x \in Range(printed) : CountIn(printed, x) = (IF x \in Present(pre) THEN CountAll(pre, x) ELSE 1) + (IF x = pre["math"] THEN 1 ELSE 0)
 
 Problems(ev) ==
@@ -51,7 +53,7 @@ Problems(ev) ==
 
 \* Known deviation AutoIdIgnoresMathIds: an automatic id equals an id carried by an element inside the MathML (which neither
 \* the annotator nor the printer lists); everything else about the call is right.
-ItemsOnly(ids) == [i \in Items |-> ids[i]]
+ItemsOnly(ids) == [i \in Listed |-> ids[i]]
 Dev(d, ev) ==
     /\ d = "AutoIdIgnoresMathIds"
     /\ IF ev.c.op = "printAuto"
